@@ -1010,6 +1010,103 @@ fn hub_call(u: &Uni, e: &str, role: &str) -> Option<Call> {
     }
 }
 
+// ---------------------------------------------------------------------------------------
+// router (+ pair template, three pairs created through the real `createPair`, simple-lock)
+// ---------------------------------------------------------------------------------------
+const FOURTH: &[u8] = b"FOURTH-abcdef";
+const LP3: &[u8] = b"LPTHREE-abcdef";
+const LKLP: &[u8] = b"LKLP-abcdef";
+
+fn addr_from_result(r: &TxResult) -> Address {
+    let v = r.result_values.first().expect("no result value");
+    Address::from_slice(v.as_slice())
+}
+
+fn build_router(vm: &mut Vm, variant: &str, amt: u64) -> Uni {
+    let mut bd = Builder::new(vm);
+    bd.vm.set_epoch(5);
+    bd.deploy("router", "owner", "router");
+    bd.deploy("template", "owner", "pair");
+    bd.deploy("lock", "owner", "simplelock");
+    let (router, lock) = (bd.ad("router"), bd.ad("lock"));
+    let _ = bd.ok("owner", "lock", "init", vec![], &[]);
+    bd.store("lock", b"lockedTokenId", LKLP.to_vec());
+    bd.vm.set_roles(&lock, LKLP, &["ESDTRoleNFTCreate", "ESDTRoleNFTAddQuantity", "ESDTRoleNFTBurn"]);
+    let _ = bd.ok("owner", "router", "init", vec![a_addr(&bd.ad("template"))], &[]);
+    let big = BigUint::from(10u64).pow(15);
+    for t in [FIRST, SECOND, THIRD, FOURTH] {
+        bd.fund_all(t, &big);
+    }
+    let zero = Address::zero();
+    // pair1: FIRST/SECOND, active, with liquidity
+    let r = bd.ok("owner", "router", "createPair", vec![FIRST.to_vec(), SECOND.to_vec(), a_addr(&zero), a_u64(300), a_u64(50)], &[]);
+    let pair1 = addr_from_result(&r);
+    bd.a.insert("pair1".into(), pair1.clone());
+    let _ = bd.ok("owner", "pair1", "setLpTokenIdentifier", vec![LP.to_vec()], &[]);
+    bd.vm.set_roles(&pair1, LP, &["ESDTRoleLocalMint", "ESDTRoleLocalBurn"]);
+    let _ = bd.ok("owner", "router", "resume", vec![a_addr(&pair1)], &[]);
+    let _ = bd.ok("user", "pair1", "addLiquidity", vec![a_u64(1), a_u64(1)], &[esdt(FIRST, 0, &b(1_000_000 + amt)), esdt(SECOND, 0, &b(2_000_000))]);
+    let _ = bd.ok("owner", "router", "setFeeOn", vec![a_addr(&pair1), a_addr(&bd.ad("fresh2")), FIRST.to_vec()], &[]);
+    // pair2: FIRST/THIRD, no LP token yet
+    let r = bd.ok("owner", "router", "createPair", vec![FIRST.to_vec(), THIRD.to_vec(), a_addr(&zero), a_u64(300), a_u64(50)], &[]);
+    bd.a.insert("pair2".into(), addr_from_result(&r));
+    // pair3: THIRD/SECOND with `user` as initial liquidity adder, left PartialActive
+    let r = bd.ok("owner", "router", "createPair", vec![THIRD.to_vec(), SECOND.to_vec(), a_addr(&bd.ad("user")), a_u64(300), a_u64(50)], &[]);
+    let pair3 = addr_from_result(&r);
+    bd.a.insert("pair3".into(), pair3.clone());
+    let _ = bd.ok("owner", "pair3", "setLpTokenIdentifier", vec![LP3.to_vec()], &[]);
+    bd.vm.set_roles(&pair3, LP3, &["ESDTRoleLocalMint", "ESDTRoleLocalBurn"]);
+    let _ = bd.ok("user", "pair3", "addInitialLiquidity", vec![], &[esdt(THIRD, 0, &b(50_000_000)), esdt(SECOND, 0, &b(50_000_000))]);
+    let lp3 = bd.vm.bal(&bd.ad("user"), LP3, 0);
+    let _ = bd.ok("user", "lock", "lockTokens", vec![a_u64(105)], &[esdt(LP3, 0, &lp3)]);
+    let n = last_nonce(&bd, "user", LKLP);
+    bd.n.insert("lklp".into(), n);
+    let share = &lp3 / 20u32;
+    for r in ROLES {
+        if r != "user" {
+            let (f, t) = (bd.ad("user"), bd.ad(r));
+            bd.vm.move_esdt(&f, &t, LKLP, n, &share);
+        }
+    }
+    bd.n.insert("lklp_amt".into(), share.to_u64_digits().first().copied().unwrap_or(0));
+    let _ = bd.ok("owner", "router", "addCommonTokensForUserPairs", vec![SECOND.to_vec()], &[]);
+    let _ = bd.ok("owner", "router", "configEnableByUserParameters", vec![SECOND.to_vec(), LKLP.to_vec(), a_u64(1), a_u64(10)], &[]);
+    if variant == "enabled" {
+        let _ = bd.ok("owner", "router", "setPairCreationEnabled", vec![a_bool(true)], &[]);
+        let _ = bd.ok("owner", "router", "clearPairTemporaryOwnerStorage", vec![], &[]);
+    }
+    bd.vm.set_nonce(10);
+    let _ = router;
+    bd.n.insert("amt".into(), 1000 + amt % 1000);
+    bd.finish("router")
+}
+
+fn router_call(u: &Uni, e: &str, _role: &str) -> Option<Call> {
+    let amt = b(u.num("amt"));
+    let p1 = a_addr(u.addr("pair1"));
+    match e {
+        "pause" | "resume" | "setLocalRoles" => call(vec![p1]),
+        "createPair" | "createPair@enabled" => call(vec![FIRST.to_vec(), FOURTH.to_vec(), a_addr(&Address::zero()), a_u64(300), a_u64(50)]),
+        "upgradePair" => call(vec![FIRST.to_vec(), SECOND.to_vec()]),
+        "issueLpToken" | "issueLpToken@enabled" => Some(Call { args: vec![a_addr(u.addr("pair2")), b"LpToken".to_vec(), b"LPT".to_vec()], pay: vec![], egld: b(50_000_000) }),
+        "removePair" => call(vec![FIRST.to_vec(), THIRD.to_vec()]),
+        "setFeeOn" => call(vec![p1, a_addr(u.addr("fresh")), SECOND.to_vec()]),
+        "setFeeOff" => call(vec![p1, a_addr(u.addr("fresh2")), FIRST.to_vec()]),
+        "setPairCreationEnabled" => call(vec![a_bool(true)]),
+        "setTemporaryOwnerPeriod" => call(vec![a_u64(10)]),
+        "setPairTemplateAddress" => call(vec![a_addr(u.addr("template"))]),
+        "clearPairTemporaryOwnerStorage" => call(vec![]),
+        "multiPairSwap" => callp(vec![p1, b"swapTokensFixedInput".to_vec(), SECOND.to_vec(), a_u64(1)], vec![esdt(FIRST, 0, &amt)]),
+        "configEnableByUserParameters" => call(vec![SECOND.to_vec(), LKLP.to_vec(), a_u64(2), a_u64(10)]),
+        "addCommonTokensForUserPairs" => call(vec![THIRD.to_vec()]),
+        "removeCommonTokensForUserPairs" => call(vec![SECOND.to_vec()]),
+        "setSwapEnabledByUser" => callp(vec![a_addr(u.addr("pair3"))], vec![esdt(LKLP, u.num("lklp"), &b(u.num("lklp_amt")))]),
+        "getPair" => call(vec![FIRST.to_vec(), SECOND.to_vec()]),
+        "getEnableSwapByUserConfig" => call(vec![SECOND.to_vec()]),
+        _ => None,
+    }
+}
+
 // =======================================================================================
 // the world
 // =======================================================================================
@@ -1062,6 +1159,10 @@ fn class_of(abi: &ContractAbi, c: &str, e: &str) -> Class {
         ("unstake", "claimUnlockedTokens" | "cancelUnbond") => Some(Open),
         ("lkmex", "withdraw" | "lockFunds") => Some(Open),
         ("hub", "whitelist" | "removeWhitelist") => Some(Open),
+        ("router", "createPair" | "issueLpToken") if e.contains("@enabled") => Some(Open),
+        ("router", "setLocalRoles") => Some(Open),
+        ("router", "multiPairSwap") => Some(UserFunds),
+        ("router", "setSwapEnabledByUser") => Some(Bootstrap),
         _ => None,
     };
     if let Some(k) = explicit {
@@ -1081,18 +1182,20 @@ fn variant_of(c: &str, e: &str) -> &'static str {
         ("farm", "compoundRewards" | "compoundRewards@orig") => "same",
         ("farm" | "fwlr" | "staking", "registerFarmToken") => "notoken",
         ("energy", "issueLockedToken") => "notoken",
+        ("router", "createPair@enabled" | "issueLpToken@enabled") => "enabled",
         ("farm" | "fwlr" | "staking", "collectUndistributedBoostedRewards") => "late",
         _ => "std",
     }
 }
 
 /// endpoint variants exercised in addition to the plain ABI endpoints
-const VARIANTS: [(&str, &str); 20] = [
+const VARIANTS: [(&str, &str); 22] = [
     ("pair", "addInitialLiquidity@adder"),
     ("farm", "enterFarm@orig"), ("farm", "claimRewards@orig"), ("farm", "compoundRewards@orig"), ("farm", "exitFarm@orig"),
     ("farm", "mergeFarmTokens@orig"), ("farm", "claimBoostedRewards@other"),
     ("fwlr", "enterFarm@orig"), ("fwlr", "claimRewards@orig"), ("fwlr", "exitFarm@orig"), ("fwlr", "mergeFarmTokens@orig"),
     ("fwlr", "claimBoostedRewards@other"),
+    ("router", "createPair@enabled"), ("router", "issueLpToken@enabled"),
     ("energy", "mergeTokens@orig"), ("energy", "updateEnergyAfterOldTokenUnlock@sc"),
     ("fees", "claimRewards@orig"), ("fees", "claimBoostedRewards@other"),
     ("staking", "stakeFarm@orig"), ("staking", "claimRewards@orig"), ("staking", "unstakeFarm@orig"), ("staking", "claimBoostedRewards@other"),
@@ -1128,6 +1231,7 @@ impl World {
             "staking" => build_staking(&mut self.vm, variant, self.amt),
             "energy" | "unstake" | "fees" | "lkmex" => build_locked(&mut self.vm, c, variant, self.amt),
             "hub" => build_hub(&mut self.vm),
+            "router" => build_router(&mut self.vm, variant, self.amt),
             _ => panic!("no universe for {c}"),
         };
         self.bases.insert(key, u.clone());
@@ -1170,6 +1274,7 @@ impl World {
             "staking" => staking_call(u, e, role),
             "energy" | "unstake" | "fees" | "lkmex" => locked_call(u, c, e, role),
             "hub" => hub_call(u, e, role),
+            "router" => router_call(u, e, role),
             _ => None,
         };
         if specific.is_some() {
@@ -1269,7 +1374,7 @@ impl World {
                 Class::PairLiquidity if state == "inactive" => {
                     tr.fail("C19", "paused_blocks_funds", e, &format!("{key}: liquidity operation succeeded on an inactive pair"))
                 }
-                Class::Bootstrap if state != "inactive" => {
+                Class::Bootstrap if c == "pair" && state != "inactive" => {
                     tr.fail("C19", "bootstrap_only_inactive", e, &format!("{key}: initial liquidity accepted on a non-inactive pair"))
                 }
                 Class::OnBehalfHub if role != "agent" => {
